@@ -2,5 +2,7 @@
 # tools/coqchk_all.sh — re-check the compiled closure of every Properties/Cxx.vo with Coq's independent
 # checker and print the axiom summary (expected: "Axioms: <none>"). Takes a few minutes.
 cd /verif/coq || exit 2
+# rebuild every property first: per-property builds leave other files stale ("inconsistent assumptions")
+../tools/coqmake $(ls Properties/C*.v | sed 's/\.v$/.vo/') >/dev/null 2>&1
 mods=""; for f in Properties/C*.v; do b=$(basename $f .v); [ -f Properties/$b.vo ] && mods="$mods SqlVProps.$b"; done
 timeout 3000 coqchk -silent -o -Q theories SqlV -Q gen SqlVGen -Q Properties SqlVProps $mods 2>&1 | tail -14
